@@ -350,8 +350,8 @@ BOUNDS = {
              'receive / poll / iter_pending (plus two senders alone with one more preemption), on a lock-protected byte-wise device port, EchoPort, the IOPort wrapper over the '
              'device port and a MultiPort over two EchoPorts; a block-buffer device port (read, then mark consumed) under 5 programs; one device port written through a MultiPort and directly / through a second MultiPort at once (<=2 preemptions); message contents (note, velocity) symbolic; the sender mutates its '
              'message after send() returned; a forwarder thread that sends to a MultiPort from inside its iteration over a sub-port while another thread polls; ParserQueue with 2 concurrent put_bytes and a poller (here every line of parser.py and tokenizer.py is a yield point too)',
-    'thorough': '<=2 preemptions for all programs on the device port, EchoPort and IOPort (MultiPort programs stay at 1: its '
-                'polling loop has several times more yield points); 3 senders and 2 messages per sender with 2 receivers (four threads: <=2 deviations from round-robin)',
+    'thorough': '<=2 preemptions for all programs on the device port and EchoPort, and for the two-thread programs on the IOPort wrapper (MultiPort programs and IOPort programs with 3+ threads stay at 1: their '
+                'polling loops have several times more yield points); 3 senders and 2 messages per sender with 2 receivers (four threads: <=2 deviations from round-robin)',
 }
 OUTSIDE = 'preemption INSIDE a source line / between bytecodes; more than 3 preemptions; more than 4 threads; real OS scheduling; ' \
           'backends that run their own threads (rtmidi callbacks). On the schedule dimension the solver certifies each ' \
@@ -374,7 +374,10 @@ def JOBS(tier):
             if kind == 'multi' and prog[1] > 1:
                 continue
             nthreads = prog[0] + prog[2]
-            params = {'kind': kind, 'program': prog, 'max_preempt': p if kind != 'multi' else 1}
+            # (MultiPort, and the IOPort wrapper with three or more threads, stay at one preemption in both tiers:
+            #  their polling loops have several times more yield points)
+            params = {'kind': kind, 'program': prog,
+                      'max_preempt': 1 if kind == 'multi' or (kind == 'ioport' and nthreads >= 3) else p}
             if nthreads >= 4:
                 # four threads: deviation bounding (round-robin picks at blocking points, a different
                 # pick costs like a preemption) instead of free choices at every blocking point
